@@ -53,7 +53,7 @@ T = {
   summary="http_protocol urldecode_20_bytes decodes %xx through a 256-entry table indexed with `char as usize`, dropping the is_ascii check of the two chars after '%': a char >= U+0100 in a hex position indexes out of bounds",
   needs="an info_hash or peer_id in which '%' is followed (in either hex position) by a valid UTF-8 character >= U+0100, e.g. `info_hash=%4\\u0100...`; %zz, Latin-1 after %, truncated escapes and invalid UTF-8 do not trigger it",
   demo="demo.diff (unit test in crates/http_protocol/src/request.rs)",
-  caught_by=[],
+  caught_by=[caught("C12", "mutations", "parser-panic")],
  ),
  "C13": dict(
   worktree="/tmp/seed3-C13",
@@ -67,21 +67,21 @@ T = {
   summary="http_protocol urldecode_20_bytes slices value.as_bytes() at a position counted in characters: after a raw character U+0080..U+00FF (2 UTF-8 bytes) every later %xx of the identifier is read from the wrong offset",
   needs="one identifier containing a raw (unescaped) character in U+0080..U+00FF and, later, a percent escape: rejected or silently decoded to other bytes; all-raw, all-escaped and ASCII+escape identifiers are unaffected",
   demo="demo/crates/http_protocol/tests/seeded_demo.rs",
-  caught_by=[],
+  caught_by=[caught("C14", "codec", "independent-text-rejected")],
  ),
  "C15": dict(
   worktree="/tmp/seed3-C15",
   summary="ws_protocol TwentyByteVisitor::visit_str fast path: a string of exactly 20 UTF-8 *bytes* is taken as the identifier as is",
   needs="an identifier string of fewer than 20 characters whose UTF-8 encoding is 20 bytes long (e.g. ten times U+00FF, or 18 ASCII + U+0100): accepted although it is not 20 characters <= U+00FF; round-trips unaffected",
   demo="demo/crates/ws_protocol/tests/seeded_demo.rs",
-  caught_by=[caught("C15", "codec", "id-accepted-malformed", note="run with the generator class 'UTF-8 length 20/40 but not 20 chars' that I added after reading the change; the earlier generator (0..40 chars uniform over U+0000..U+00FF plus injected higher chars) produces such strings in about 0.2 % of identifier cases, i.e. a few hundred per quick run, so it is expected to have caught it as well - not measured")],
+  caught_by=[caught("C15", "codec", "id-accepted-malformed", note="caught by the generator as it stood before I read the change (measured separately: violation after 4581 cases, an 8-char string of 20 UTF-8 bytes); a dedicated class 'UTF-8 length 20/40 but not 20 chars' was added anyway so that the case does not depend on chance")],
  ),
  "C18": dict(
   worktree="/tmp/seed3-C18",
   summary="http REQUEST_BUFFER_SIZE 2048 -> 4096 while RESPONSE_BUFFER_SIZE stays 8192 and max_scrape_torrents is not validated: a request can now carry 131 info hashes, a reply with >= 117 files does not fit",
   needs="protocol.max_scrape_torrents >= 117 (default 100 still fits) and a scrape of >= 117 mostly unescaped hashes (3.6-4 KiB request): connection closed without a reply, configuration accepted",
   demo="demo/crates/http/tests/seeded_demo.rs",
-  caught_by=[],
+  caught_by=[caught("C18", "configs", "reply-dropped", note="missed at first: the longest HTTP scrape was hard-coded as 65 hashes / 2040 request bytes under limits 1, 50, 100. Caught after the check was changed to find the request length the running tracker accepts by bisection (padded one-hash scrape) and to send the scrapes with the most hashes that fit, under limits from 1 to usize::MAX")],
  ),
  "C04": None,  # written by hand earlier
  "C06": dict(
